@@ -11,10 +11,21 @@ From PV Require Import Model.Status Model.Lifecycle Model.Final gen.FinalFacts_g
    store already holds the value of a COMPLETED execution of that invocation's body; whenever it
    observes FAILED the exception store holds the exception a completed body raised. *)
 Theorem final_status_has_outcome : forall ops0 l, fresh_start ops0 ->
-  let w := frun result_before_success exception_before_failed (fworld_of ops0) l in
+  let w := frun2 result_before_success exception_before_failed outcome_stores_independent (fworld_of ops0) l in
   Forall (obs_ok (fcompleted w)) (fobs w).
-Proof. exact observations_ok. Qed.
+Proof. exact observations_ok2. Qed.
 Print Assumptions final_status_has_outcome.
+
+(* the reader of the model looks at the stores on every read: get_final_result returns what the state backend holds, not a
+   value remembered by the invocation handle (generated from DistributedInvocation.get_final_result) *)
+Theorem reader_reads_the_stores : final_result_read_from_store = true.
+Proof. exact eq_refl. Qed.
+
+(* a store that deletes the other kind of outcome lets a zombie wipe the outcome of an already final invocation *)
+Theorem dependent_outcome_stores_refuted :
+  exists l, let w := frun2 true true false (fworld_of [ORegister 0 None; OSet 0 PENDING (Some 1)]) l in
+            exists o, In o (fobs w) /\ ostatus o = Some FAILED /\ oexc o = None.
+Proof. exact dependent_stores_refuted. Qed.
 
 (* ... and what get_final_result makes of such an observation *)
 Theorem success_implies_result_of_completed_body : forall c o, obs_ok c o ->
